@@ -1,5 +1,43 @@
-(* C10 - placeholder until the proofs are in (see C10Proofs.v) *)
-From Coq Require Import List NArith.
+(* C10 - VSS string-array packing round-trips and stays inside its buffers. *)
+From Coq Require Import List NArith Bool.
+From O1722 Require Import Bits Host FieldModel Spec SpecProofs VssModel VssSpec C13Proofs C10Proofs.
 From O1722.Generated Require Import Tables.
+Import ListNotations.
+Local Open Scope N_scope.
+
+(* facts read from the AST of Vss.c on every run: the unpack loop advances its index; the counter returns >= 16 bits *)
 Theorem C10_code_facts : deser_idx_advances = true /\ (16 <= strarray_count_ret_bits)%nat.
-Proof. split; [reflexivity|cbn; auto with arith]. Qed.
+Proof. split; [exact idx_advances|exact count_ret_wide]. Qed.
+
+(* Packing ANY list of strings (any number, empty strings included) whose packed size fits the 16-bit length:
+   the recorded length is the packed size and the destination receives - at its start, nothing else touched - the
+   concatenation, in order, of a 16-bit big-endian length and the bytes of each string (VssSpec.enc_strings). *)
+Theorem C10_pack : forall E ss out, short ss -> total ss < 2 ^ 16 -> total ss <= blen out ->
+  strs_pack (stwE E) (objs ss) (N.of_nat (length ss)) out = Ok (total ss, upd out 0 (enc_strings ss)).
+Proof. exact pack_exact. Qed.
+
+(* Counting a packed array returns the number of strings - also beyond 255 - whether the block holds exactly the
+   recorded length (post = []) or more. *)
+Theorem C10_count : forall E ss post, short ss -> total ss < 2 ^ 16 ->
+  strs_count (ldwE E) (total ss) (enc_strings ss ++ post) = Ok (N.of_nat (length ss)).
+Proof. exact count_exact. Qed.
+
+(* Unpacking into any number of string objects - fewer, as many, or MORE than were packed - gives the first
+   min(requested, packed) objects their length and (when they have a large enough destination) their bytes, lengths
+   only for null destinations, leaves the rest untouched, and never leaves the array: with post = [] the block holds
+   exactly the recorded length and the outcome is Ok, not OOB. *)
+Theorem C10_unpack : forall E ss dsts post, short ss -> total ss < 2 ^ 16 -> caps_ok dsts ss -> N.of_nat (length dsts) < 2 ^ 16 ->
+  strs_unpack (ldwE E) (total ss) (enc_strings ss ++ post) dsts (N.of_nat (length dsts)) = Ok (expected dsts ss).
+Proof. exact unpack_exact. Qed.
+
+(* meaning of [expected]: exactly min(requested, packed) entries, entry i = string i *)
+Theorem C10_expected_length : forall dsts ss, length (expected dsts ss) = Nat.min (length dsts) (length ss).
+Proof. induction dsts as [|d dr IH]; destruct ss as [|s sr]; cbn [expected length Nat.min]; auto. Qed.
+
+Example C10_example :
+  strs_pack (stwE LE) (objs [[0x61;0x62;0x63]; []; [0x64;0x65]]) 3 (repeat 0xee 12) =
+    Ok (11, [0;3;0x61;0x62;0x63; 0;0; 0;2;0x64;0x65; 0xee]) /\
+  strs_count (ldwE BE) 11 [0;3;0x61;0x62;0x63; 0;0; 0;2;0x64;0x65] = Ok 3 /\
+  strs_unpack (ldwE LE) 11 [0;3;0x61;0x62;0x63; 0;0; 0;2;0x64;0x65] [Some 3; None; Some 2; Some 9; None] 5 =
+    Ok [(3, Some [0x61;0x62;0x63]); (0, None); (2, Some [0x64;0x65])].
+Proof. vm_compute. repeat split. Qed.
